@@ -59,14 +59,18 @@ REQUIRED = [
 
 WRAPPERS = ['fixed', 'tb', 'cond', 'pre', 'post', 'bycon', 'preapp', 'remapp', 'byparty', 'multi', 'unused',
             'plist', 'vs']
-LEAVES = ['plurality', 'input_order', 'ha', 'abs_thr', 'rel_thr', 'prev_gain_thr']
+LEAVES = ['plurality', 'input_order', 'ha', 'qd', 'lr', 'abs_thr', 'rel_thr', 'prev_gain_thr']
 REQUIRED_COUNTERS = (['w:' + w for w in WRAPPERS] + ['leaf:' + l for l in LEAVES]
                      + ['depth:1', 'depth:2', 'depth:3', 'depth:4',
                         'seatspec:int', 'seatspec:dict', 'seatspec:none', 'seatspec:app_int', 'seatspec:app_dict',
                         'seatspec:app_dist', 'seatspec:app_dist_seatless',
                         'prev_given', 'max_given', 'cond_depth2', 'multi_depth2', 'tb_nested', 'tie_selection',
                         'tie_distribution', 'zero_seat_district', 'votes_per_stage', 'preselector',
-                        'elim_prev_gains', 'fix_904ccca_shape', 'seatspec:omitted', 'generic_over_seatless'])
+                        'elim_prev_gains', 'fix_904ccca_shape', 'seatspec:omitted', 'generic_over_seatless',
+                        'unused_votes_2_rounds', 'unused_votes_3plus_rounds', 'unused_votes_prev_gains',
+                        'unused_votes_depth2', 'unused_votes_in_multistage', 'unused_votes_in_preapportioned',
+                        'unused_votes_later_stage_awards', 'unused_votes_3plus_later_stage_awards',
+                        'unused_votes_prev_gains_later_stage_awards', 'unused_votes_depth2_later_stage_awards'])
 
 NOT_VERIFIED = [
     'inspect.signature itself: the model hard-codes accepts_seats / accepts_prev_gains per class; the hard-coded '
@@ -244,6 +248,10 @@ def build(node):
         obj = vaux.InputOrderSelector()
     elif k == 'ha':
         obj = vprop.HighestAverages(node['divisor'])
+    elif k == 'qd':
+        obj = vprop.QuotaDistributor(node['quota'], accept_equal=node['accept_equal'], on_overaward=node['on_overaward'])
+    elif k == 'lr':
+        obj = vprop.LargestRemainder(node['quota'], accept_equal=node['accept_equal'], on_overaward=node['on_overaward'])
     elif k == 'abs_thr':
         obj = vthr.AbsoluteThreshold(dec(node['t']), node['eq'])
     elif k == 'rel_thr':
@@ -304,7 +312,8 @@ def call_obj(obj, votes, kw, watch=None):
 # ------------------------------------------------------------------------------------------------
 # the hand composition (the oracle): written from the property statement
 
-LEAF_TAKES = {'plurality': ('n',), 'input_order': ('n',), 'ha': ('n', 'prev', 'max'), 'abs_thr': (), 'rel_thr': (),
+LEAF_TAKES = {'plurality': ('n',), 'input_order': ('n',), 'ha': ('n', 'prev', 'max'), 'qd': ('n', 'prev', 'max'),
+              'lr': ('n', 'prev', 'max'), 'abs_thr': (), 'rel_thr': (),
               'prev_gain_thr': ('prev',)}
 
 
@@ -668,7 +677,7 @@ def _agree(w, h):
     return same(canon_v(w), _canon_hand(h))
 
 
-LEAF_NEEDS_SEATS = {'ha'}        # n_seats is a required argument of the leaf
+LEAF_NEEDS_SEATS = {'ha', 'qd', 'lr'}        # n_seats is a required argument of the leaf
 
 
 def needs_seats(b):
@@ -896,6 +905,9 @@ def describe_node(n):
         return 'InputOrderSelector()'
     if k == 'ha':
         return f'HighestAverages({n["divisor"]!r})'
+    if k in ('qd', 'lr'):
+        cls = 'QuotaDistributor' if k == 'qd' else 'LargestRemainder'
+        return f'{cls}({n["quota"]!r}, accept_equal={n["accept_equal"]}, on_overaward={n["on_overaward"]!r})'
     if k == 'abs_thr':
         return f'AbsoluteThreshold({n["t"]}, {n["eq"]})'
     if k == 'rel_thr':
@@ -996,7 +1008,7 @@ def g_s1(rng, d):
 
 def g_d1(rng, d, gains=False):
     """gains=True: the evaluator must take prev_gains and max_seats (a stage of a multi-stage distributor)"""
-    opts = ['ha', 'ha']
+    opts = ['ha', 'ha', 'ha', 'qd', 'lr']
     if d > 0:
         opts += ['tb', 'cond', 'multi', 'vs', 'pre_chain']
         if not gains:
@@ -1004,6 +1016,8 @@ def g_d1(rng, d, gains=False):
     k = rng.choice(opts)
     if k == 'ha':
         return leaf('ha', divisor=rng.choice(DIVS))
+    if k in ('qd', 'lr'):
+        return g_quota_leaf(rng, k)
     if k == 'tb':
         return {'k': 'tb', 'main': g_d1(rng, d - 1, gains), 'tb': g_s1(rng, min(d - 1, 1))}
     if k == 'cond':
@@ -1020,6 +1034,130 @@ def g_d1(rng, d, gains=False):
     rounds = [_amount_one(g_d1(rng, d - 1, False)) for _ in range(rng.randint(1, 3))]
     return {'k': 'unused', 'rounds': rounds, 'quotas': [rng.choice(['droop', 'hagenbach_bischoff', 'imperiali', 'hare'])
                                                         for _ in rounds[:-1]], 'depth': 1}
+
+
+def g_quota_leaf(rng, k=None, partial=False):
+    """QuotaDistributor (awards whole quotas only, so it leaves seats to later stages) / LargestRemainder"""
+    k = k or rng.choice(['qd', 'qd', 'lr'])
+    quota = rng.choice(['droop', 'hare', 'hagenbach_bischoff']) if partial or rng.random() < 0.8 else 'imperiali'
+    return leaf(k, quota=quota, accept_equal=rng.random() < 0.7,
+                on_overaward=rng.choice(['error', 'error', 'subtract', 'ignore']))
+
+
+def g_unused(rng, n_rounds, depth):
+    """an unused-votes distributor whose earlier rounds award whole quotas only, so that later rounds get seats"""
+    def stage(last):
+        r = rng.random()
+        if last:
+            st = leaf('ha', divisor=rng.choice(DIVS)) if r < 0.5 else g_quota_leaf(rng, 'lr' if r < 0.8 else 'qd', True)
+        else:
+            st = g_quota_leaf(rng, 'qd', True) if r < 0.85 else leaf('ha', divisor=rng.choice(DIVS))
+        if rng.random() < 0.12:
+            st = {'k': 'vs', 'e': st}
+        return {'k': 'bycon', 'e': st, 'app': None} if depth == 2 else st
+    rounds = [stage(i == n_rounds - 1) for i in range(n_rounds)]
+    quotas = []
+    for st in rounds[:-1]:
+        inner = st
+        while inner['k'] in ('bycon', 'vs'):
+            inner = inner['e']
+        # as the constructor does by default: the quota of the stage itself; sometimes another one
+        quotas.append(inner['quota'] if inner['k'] in ('qd', 'lr') and rng.random() < 0.7
+                      else rng.choice(['droop', 'hagenbach_bischoff', 'hare']))
+    return {'k': 'unused', 'rounds': rounds, 'quotas': quotas, 'depth': depth}
+
+
+def g_big_votes(rng, parties):
+    return {'dict': [[p, str(rng.choice([rng.randint(300, 5000), rng.randint(50, 900), 100 * rng.randint(1, 40)]))]
+                     for p in parties]}
+
+
+def gen_unused(rng):
+    """UnusedVotesDistributor with 2-4 rounds, with / without prev_gains, depth 1 / 2, as root and nested in
+    MultistageDistributor / PreApportioned"""
+    parties = rng.sample(range(CANDS), rng.randint(3, 6))
+    n_rounds = rng.choice([2, 3, 3, 4])
+    shape = rng.choice(['root1', 'root1', 'root2', 'multi1', 'multi2', 'preapp'])
+    tags = ['unused_votes_2_rounds' if n_rounds == 2 else 'unused_votes_3plus_rounds']
+    if shape in ('root1', 'multi1'):
+        votes = g_big_votes(rng, parties)
+        n = rng.randint(4, 14)
+        args = {'votes': votes, 'n': str(n)}
+        tree = g_unused(rng, n_rounds, 1)
+        if shape == 'multi1':
+            first = rng.choice([g_quota_leaf(rng, 'qd', True), leaf('ha', divisor=rng.choice(DIVS))])
+            tree = {'k': 'multi', 'rounds': [first, tree] if rng.random() < 0.8 else [tree, first], 'depth': 1}
+            n = rng.randint(6, 16)
+            args['n'] = str(n)
+            tags.append('unused_votes_in_multistage')
+        if rng.random() < 0.5:
+            args['prev'] = g_gains(rng, parties, max(2, n // 3), 0.6)
+        tags.append('seatspec:int')
+    else:
+        cons = [CON0 + i for i in range(rng.randint(1, 3))]
+        votes = {'dict': [[c, g_big_votes(rng, [p for p in parties if rng.random() < 0.9] or parties[:2])] for c in cons]}
+        args = {'votes': votes}
+        tree = g_unused(rng, n_rounds, 2)
+        table = {'dict': [[c, str(rng.randint(3, 9))] for c in cons]}
+        tags.append('unused_votes_depth2')
+        if shape == 'preapp':
+            tree = {'k': 'preapp', 'e': tree, 'app': rng.choice([table, {'int': str(rng.randint(3, 8))}])}
+            tags += ['unused_votes_in_preapportioned', 'seatspec:app_dict' if 'dict' in tree['app'] else 'seatspec:app_int',
+                     'seatspec:none']
+        else:
+            args['n'] = table
+            tags.append('seatspec:dict')
+            if shape == 'multi2':
+                first = {'k': 'bycon', 'e': g_quota_leaf(rng, 'qd', True), 'app': None}
+                tree = {'k': 'multi', 'rounds': [first, tree], 'depth': 2}
+                tags.append('unused_votes_in_multistage')
+        if rng.random() < 0.5:
+            args['prev'] = {'dict': [[c, g_gains(rng, parties, 2, 0.6)] for c in cons if rng.random() < 0.8]}
+    case = mk_case(tree, args, tags)
+    return _tag_unused(case)
+
+
+def _tag_unused(case):
+    """after-the-fact tags: previous gains really reach the distributor, later rounds really award seats
+    (computed with the hand composition on the leaf objects, which no wrapper code takes part in)"""
+    try:
+        root = build(case['tree'])
+        votes, kw = _args(case)
+        h = Hand()
+        call_with_timeout(lambda: h.run(root, votes, kw), 5)
+    except Exception:       # noqa
+        return case
+    tags = set(case['_tags'])
+    for b, _votes, kw, outcome in h.trace:
+        if b.kind != 'unused' or outcome[0] != 'ok':
+            continue
+        depth = b.node['depth']
+        prev = bool(_flat_total(kw.get('prev') or {}, depth))
+        if prev:
+            tags.add('unused_votes_prev_gains')
+        stage_calls = [(bb, oo) for bb, _v, _k, oo in h.trace if any(bb is r for r in b.kids['rounds'])]
+        later = [oo for bb, oo in stage_calls if bb is not b.kids['rounds'][0]
+                 and oo[0] == 'ok' and _flat_total(oo[1], depth) > 0]
+        first_ok = [oo for bb, oo in stage_calls if bb is b.kids['rounds'][0]
+                    and oo[0] == 'ok' and _flat_total(oo[1], depth) > 0]
+        if later and first_ok:
+            tags.add('unused_votes_later_stage_awards')
+            if len(b.kids['rounds']) >= 3:
+                tags.add('unused_votes_3plus_later_stage_awards')
+            if prev:
+                tags.add('unused_votes_prev_gains_later_stage_awards')
+            if depth == 2:
+                tags.add('unused_votes_depth2_later_stage_awards')
+    case['_tags'] = sorted(tags)
+    return case
+
+
+def _flat_total(d, depth):
+    if not isinstance(d, dict):
+        return 0
+    if depth <= 1:
+        return sum(v for v in d.values() if isinstance(v, (int, Fraction)))
+    return sum(_flat_total(v, depth - 1) for v in d.values())
 
 
 def _amount_one(node):
@@ -1364,6 +1502,8 @@ def generate(rng, tier):
     N = 3000 if tier == 'quick' else 120000
     for _ in range(12 if tier == 'quick' else 120):
         yield from gen_directed(rng)
+    for _ in range(240 if tier == 'quick' else 6000):
+        yield gen_unused(rng)
     for i in range(N):
         d = 1 + (i % 4)
         r = rng.random()
